@@ -563,13 +563,17 @@ def gen_edit(draw, G, feat, kinds=None):
             ctx = R.Evaluator(G).ctx_of(sid)
         except Exception:
             return None
-        cs = [n for n in G.cells_names(ctx.base) if G.find_cells(ctx.base, n)[1].cached]
+        # (assignments to uncached cells are requested now and then: they must be refused)
+        cs = [n for n in G.cells_names(ctx.base) if G.find_cells(ctx.base, n)[1].cached or draw(st.integers(0, 3)) == 0]
         if not cs:
             return None
         n = draw(st.sampled_from(cs))
         params = G.find_cells(ctx.base, n)[1].params
         key = [draw(st.integers(0, 2)) for _ in params]
-        return ["set_value", _jsid(sid), n, key, draw(st.integers(20, 99))]
+        op = ["set_value", _jsid(sid), n, key, draw(st.integers(20, 99))]
+        if not params and all(isinstance(x, str) for x in sid) and draw(st.booleans()):
+            op.append("attr")       # spelled ``space.name = value``
+        return op
     if kind == "clear_value":
         if not G.inputs:
             return None
